@@ -201,11 +201,12 @@ def inline_call(ex, st, fobj, recv, pos, named, stars, sargs, node):
     fobj = getattr(fobj, '__func__', fobj)
     if not isinstance(fobj, types.FunctionType): return None
     modname, qn = getattr(fobj, '__module__', ''), getattr(fobj, '__qualname__', '')
-    if not modname.startswith('edzed') or '<' in qn or '.' in qn: return None
+    if not modname.startswith('edzed') or '<' in qn or qn.count('.') > 1: return None
+    if ('.' in qn) != (recv is not None): return None
     q = f'{modname}:{qn}'
     k = _INLINE.get(q)
     if k is None:
-        k = C.Contract('inline:' + q, lambda c: None, qual=q)
+        k = C.Contract('inline:' + q, lambda c: None, qual=q, self_cls=qn.split('.')[0] if '.' in qn else None)
         try: k.load()
         except Unsupported: return None
         _INLINE[q] = k
@@ -294,16 +295,42 @@ def call_method(ex, st, recv, name, pos, named, stars, sargs, node, ov):
         if r.cls is not None:
             k = C.CONTRACTS.get(f'{r.cls}.{name}') if C_class(r.cls) is None else None      # pseudo classes (Queue, Task, ...)
             real = C_class(r.cls)
-            if real is not None: k = resolve_method(real, name)
+            if real is not None:
+                try: k = resolve_method(real, name)
+                except Unsupported: k = None          # defined, but without a contract: inlined below if it is a straight-line helper
         if k is None: k = C.CONTRACTS.get(f'*.{name}')
         if k is None:
             cands = [c for key, c in C.CONTRACTS.items() if key.endswith('.' + name)]
             if len(cands) == 1: k = cands[0]
+        if k is None and r.cls is not None and C_class(r.cls) is not None:
+            # a method without a contract (typically a helper introduced by a refactoring): straight-line bodies are executed in place
+            fobj = next((vars(c)[name] for c in C_class(r.cls).__mro__ if name in vars(c)), None)
+            if fobj is not None:
+                res = inline_call(ex, st, fobj, r, pos, named, stars, sargs, node)
+                if res is not None: return res
+        if k is None and r.cls is None:
+            # receiver of unknown class: if exactly one edzed class defines a method of this name, that is the one meant
+            defs = _definers(name)
+            if len(defs) == 1:
+                res = inline_call(ex, st, defs[0], r, pos, named, stars, sargs, node)
+                if res is not None: return res
         if k is None: raise Unsupported(f'no contract for method .{name}() on {r.cls or "object"} (line {node.lineno} in {ex.spec.qual})')
         return apply_contract(ex, st, k, r, pos, named, stars, sargs, node)
     if isinstance(recv, PType):
         return call_method(ex, st, recv.of, name, pos, named, stars, sargs, node, ov)
     raise Unsupported(f'method {name} on {recv!r} (line {node.lineno} in {ex.spec.qual})')
+
+
+def _definers(name):
+    """plain functions called `name` defined in the body of a class of the edzed package"""
+    import importlib, types
+    out = []
+    for m in ['edzed.block', 'edzed.simulator', 'edzed.addons', 'edzed.fsm', 'edzed.blocklib.sblocks1', 'edzed.blocklib.sblocks2', 'edzed.blocklib.cblocks',
+              'edzed.blocklib.fsms', 'edzed.blocklib.filters', 'edzed.blocklib.cron', 'edzed.blocklib.timedate', 'edzed.blocklib.timeinterval']:
+        mod = importlib.import_module(m)
+        for c in vars(mod).values():
+            if isinstance(c, type) and c.__module__ == m and isinstance(vars(c).get(name), types.FunctionType): out.append(vars(c)[name])
+    return out
 
 
 _class_cache = {}
